@@ -591,6 +591,12 @@ class NDCubeBase(NDCubeABC, astropy.nddata.NDData, NDCubeSlicingMixin):
             identifier = physical_type.replace(":", "_")
             identifier = identifier.replace(".", "_")
             identifier = identifier.replace("-", "__")
+            # Coordinates that share a physical type get a numbered field each.
+            if identifier in identifiers:
+                n = 1
+                while f"{identifier}_{n}" in identifiers:
+                    n += 1
+                identifier = f"{identifier}_{n}"
             identifiers.append(identifier)
         CoordValues = namedtuple("CoordValues", identifiers)
         return CoordValues(*axes_coords[::-1])
